@@ -47,7 +47,10 @@ Insts ==
   \cup {I("RangeWithStep", <<x, y, st2>>) : x \in -2..2, y \in -2..2, st2 \in {1, 2, 3, 4, 6}}
   \cup {I("Repeat", <<7, c>>) : c \in 0..3}
   \cup {[op |-> "FromSlice", a |-> <<>>, cs |-> cs] : cs \in Collections}
-  \cup {I("Empty", <<>>), I("Throw", <<1>>), I("Start", <<7>>), I("Defer", <<1, 2>>), I("DeferThrow", <<1>>), I("Future", <<7>>), I("FutureErr", <<1>>)}
+  \cup {I("Empty", <<>>), I("Throw", <<1>>), I("Start", <<7>>), I("Defer", <<1, 2>>), I("DeferThrow", <<1>>), I("Future", <<7>>), I("FutureErr", <<1>>),
+        \* C07: a synchronous source whose teardown / whose TapOnFinalize callback PANICS, subscribed directly (nothing around it that
+        \* could absorb the panic): the observer sees the whole script and the panic does not escape into the Subscribe call
+        I("SyncPanickingTeardown", <<1, 2>>), I("OfPanickingFinalizer", <<1, 2>>)}
 
 \* the script of one subscription
 Script(i) ==
@@ -59,13 +62,13 @@ Script(i) ==
     [] i.op = "Empty"          -> <<Cc>>
     [] i.op = "Throw"          -> <<Ee(i.a[1])>>
     [] i.op = "Start"          -> <<Nn(i.a[1]), Cc>>
-    [] i.op = "Defer"          -> Vals(i.a) \o <<Cc>>
+    [] i.op \in {"Defer", "SyncPanickingTeardown", "OfPanickingFinalizer"} -> Vals(i.a) \o <<Cc>>
     [] i.op = "DeferThrow"     -> <<Ee(i.a[1])>>
     [] i.op = "Future"         -> <<Nn(i.a[1]), Cc>>
     [] OTHER                   -> <<Ee(i.a[1])>>                     \* FutureErr
 
-\* user function invocations per subscription (Start: cb; Defer*: factory; Future*: factory)
-Calls(i) == IF i.op \in {"Start", "Defer", "DeferThrow", "Future", "FutureErr"} THEN 1 ELSE 0
+\* user function invocations per subscription (Start: cb; Defer*: factory; Future*: factory; the panicking teardown / finalizer: once)
+Calls(i) == IF i.op \in {"Start", "Defer", "DeferThrow", "Future", "FutureErr", "SyncPanickingTeardown", "OfPanickingFinalizer"} THEN 1 ELSE 0
 
 \* what the observer sees behind Take(n)
 NVals(s) == Cardinality({j \in 1..Len(s) : s[j].k = "N"})
